@@ -9,10 +9,22 @@
    one for a starred binding exactly when the port is the signal's reverse complement, which is
    what the `equal` line of the PIL back-end says (C03_binding_equal / C03_binding_complement);
    C03_signal_lines states which lines are written for a signal and each of its bindings.
-   NOT proved: the global equivalence of the two constraint sets over a whole nested system; it is
-   decided per case by the partition oracle over all structure positions. *)
+   For one component the whole document is covered (C03_component_document_equivalent): a nucleotide
+   assignment satisfies every sequence template and every structure of the .des written for a compiled
+   component - read with the document's own sequence lines as environment - exactly when it satisfies
+   the component's templates and target structures on its strands' nucleotides.
+   For a whole nested system (C03_system_document_equivalent): if no sequence and no structure is defined twice
+   in the document (the open known finding of this property is exactly a document that defines one auxiliary
+   duplex twice) and the loaded system is well formed (components compiled, every bound port of the signal's
+   length, nested bindings naming a signal of the sub-system), then an assignment satisfies the document exactly
+   when it satisfies every component, every signal's auxiliary sequence is the signal's reverse complement, and
+   every port bound to a signal equals the signal - or its reverse complement when the binding is starred - at
+   every depth.  Both hypotheses are booleans (sys_okb, des_doc_okb; sound by C03_hypotheses_sound) that the
+   extracted model evaluates on every system the correspondence check loads.
+   NOT proved: that every system load_file accepts passes sys_okb; the partition oracle of the
+   correspondence check decides the equivalence on the real .des independently per case. *)
 From Coq Require Import List String Ascii Arith.
-From PC Require Import Comp.Syntax Comp.Compile Comp.Denote Comp.EmitProofs Design.Designer Sys.System Sys.Des Sys.DesProofs Sys.SignalProofs.
+From PC Require Import Comp.Syntax Comp.Compile Comp.Denote Comp.EmitProofs Design.Designer Sys.System Sys.Des Sys.DesProofs Sys.SignalProofs Sys.DesEquiv Sys.DesSys.
 Import ListNotations.
 
 Theorem C03_assignment_rereads_partial : forall c, WF c -> forall l, (forall x, In x l -> ahas (c_bases c) (fst x) = true) ->
@@ -57,3 +69,25 @@ Theorem C03_signal_lines : forall f prefix comps sigs lens i o sname entries,
     In (DAssign dn (((if wc then sg else wcn), false) :: snd (binding_seqs prefix comps l cname))) out.
 Proof. exact des_signal_lines. Qed.
 Print Assumptions C03_signal_lines.
+
+
+(* one component, the whole document: no more and no fewer constraints than the source *)
+Theorem C03_component_document_equivalent : forall ctr prefix d body c ctr', compile_comp ctr prefix d body = OK (c, ctr') ->
+  forall v, des_sat v (emit_des_comp c) <-> src_sat v c.
+Proof. exact compiled_des_equiv. Qed.
+Print Assumptions C03_component_document_equivalent.
+
+(* a whole nested system: the document says what the components, the signals and their bindings say *)
+Theorem C03_system_document_equivalent : forall f o v, sys_okb f o = true -> des_doc_okb (emit_des_obj f o) = true ->
+  (des_sat v (emit_des_obj f o) <-> sys_sat v f o).
+Proof. exact des_system_equiv_b. Qed.
+Print Assumptions C03_system_document_equivalent.
+
+Theorem C03_hypotheses_sound : forall f o, sys_okb f o = true -> sys_wf f o.
+Proof. exact sys_okb_sound. Qed.
+Print Assumptions C03_hypotheses_sound.
+
+Theorem C03_system_nonvacuous : sys_okb 12 demo_system = true /\ des_doc_okb (emit_des_obj 12 demo_system) = true /\
+  List.length (emit_des_obj 12 demo_system) = 16.
+Proof. exact demo_system_hypotheses. Qed.
+Print Assumptions C03_system_nonvacuous.
